@@ -33,8 +33,8 @@ REQUIRED_PROBES = {"quick": ["auth.true", "auth.false", "protect.then.auth", "ta
 
 def phases(tier):
     q = tier == "quick"
-    return [{"name": "lite", "runs": 260 if q else 30000, "params": {"family": "lite"}},
-            {"name": "ntag", "runs": 400 if q else 60000, "params": {"family": "ntag"}}]
+    return [{"name": "lite", "runs": 260 if q else 10000, "params": {"family": "lite"}},
+            {"name": "ntag", "runs": 400 if q else 30000, "params": {"family": "ntag"}}]
 
 
 class OsShim(object):
